@@ -3,7 +3,13 @@
   definitions the theorems are about: parsing and printing only.
 -/
 import CstModel.Model.Tree
+import CstModel.Model.Query
 namespace Cst.Drv
+
+structure RState where
+  trees : Array (Red × Nat) := #[]             -- red tree and the cache slot that resolves it
+  elems : Array (Nat × Path) := #[]            -- element id ↦ (tree, path), by first appearance
+  deriving Inhabited
 
 structure DState where
   statics : List (Nat × Text) := []
@@ -20,6 +26,9 @@ structure DState where
   greens : Array (Green × Nat) := #[]      -- root and the cache slot whose interner resolves it
   /-- canonical numbering of ghost ids by first appearance (per case) -/
   idMap : List (Nat × Nat) := []
+  red : RState := {}
+  /-- debug-abbreviation window of `SyntaxToken::write_debug` (from SourceFacts) -/
+  dbgWindow : Nat × Nat × Nat := (25, 21, 25)
 
 def DState.cfg (s : DState) : Cfg :=
   { statics := s.statics, H := fxChildHash s.mask, threshold := s.threshold,
@@ -27,7 +36,7 @@ def DState.cfg (s : DState) : Cfg :=
 
 def DState.resetCase (s : DState) : DState :=
   { s with interners := #[], caches := #[], builder := none, failNext := false, cps := #[],
-           greens := #[], idMap := [] }
+           greens := #[], idMap := [], red := {} }
 
 /-- parse `<prefix><n>` -/
 def parseRef (pfx : Char) (s : String) : Option Nat :=
